@@ -26,7 +26,13 @@ pub fn to_text(s: &Scenario, world_name: &str, prop: &str, signature: &str, deta
     let mut o = String::new();
     o.push_str("anysim-scenario v1\n");
     o.push_str(&format!("property {}\n", prop));
-    o.push_str(if cfg!(debug_assertions) { "build checked\n" } else { "build release\n" });
+    o.push_str(if std::env::var("ANYSIM_ENGINE").map(|v| v == "valgrind").unwrap_or(false) {
+        "build release-valgrind\n"
+    } else if cfg!(debug_assertions) {
+        "build checked\n"
+    } else {
+        "build release\n"
+    });
     o.push_str(&format!("world {} {}\n", s.world, world_name));
     o.push_str(&format!("seed {}\n", s.seed));
     o.push_str(&format!(
